@@ -160,12 +160,18 @@ func throughNewHelper(v ssa.Value) ssa.Value {
 		if !ok {
 			return nil
 		}
+		if isErrorType(x.Type()) {
+			return nil // error results stay attached to their call: guard facts are keyed by it
+		}
 		if r := singleSuccessReturn(c.Call.StaticCallee()); r != nil && x.Index < len(r.Results) {
 			return r.Results[x.Index]
 		}
 	case *ssa.Call:
 		if _, isTuple := x.Type().(*types.Tuple); isTuple {
 			return nil
+		}
+		if isErrorType(x.Type()) || isBoolType(x.Type()) {
+			return nil // error / boolean results stay attached to their call: guard facts are keyed by it
 		}
 		if r := singleSuccessReturn(x.Call.StaticCallee()); r != nil && len(r.Results) == 1 {
 			return r.Results[0]
@@ -463,11 +469,19 @@ func expandHelperFact(f Fact, depth int) []Fact {
 	want := false
 	switch f.Kind {
 	case FTrue, FFalse:
-		c, ok := canon(f.V).(*ssa.Call)
-		if !ok {
+		switch x := canon(f.V).(type) {
+		case *ssa.Call:
+			call = x
+		case *ssa.Extract:
+			c, ok := x.Tuple.(*ssa.Call)
+			if !ok {
+				return nil
+			}
+			call, idx = c, x.Index
+		default:
 			return nil
 		}
-		call, want = c, f.Kind == FTrue
+		want = f.Kind == FTrue
 	case FNil:
 		// `err == nil` for the error result of a helper
 		switch x := canon(f.V).(type) {
@@ -501,10 +515,10 @@ func expandHelperFact(f Fact, depth int) []Fact {
 		}
 		isErr = true
 	} else {
-		if res.Len() != 1 {
+		if bt, ok := res.At(idx).Type().Underlying().(*types.Basic); !ok || bt.Kind() != types.Bool {
 			return nil
 		}
-		if bt, ok := res.At(0).Type().Underlying().(*types.Basic); !ok || bt.Kind() != types.Bool {
+		if _, isTuple := call.Type().(*types.Tuple); !isTuple && res.Len() != 1 {
 			return nil
 		}
 	}
@@ -605,6 +619,82 @@ func helperFacts(h *ssa.Function, idx int, want bool, isErr bool, depth int) []F
 		return nil
 	}
 	return result
+}
+
+// helperEveryPath: the branch fact f is "helper h returned v"; reports whether on *every* return of h that
+// delivers v some fact satisfying pred holds (a disjunction spread over the helper's returns, e.g.
+// `return err == nil || errors.Is(err, A) || errors.Is(err, B)` written as a switch).
+func helperEveryPath(f Fact, pred func(Fact) bool) bool {
+	var call *ssa.Call
+	idx := 0
+	switch x := canon(f.V).(type) {
+	case *ssa.Call:
+		call = x
+	case *ssa.Extract:
+		c, ok := x.Tuple.(*ssa.Call)
+		if !ok {
+			return false
+		}
+		call, idx = c, x.Index
+	default:
+		return false
+	}
+	h := call.Call.StaticCallee()
+	if h == nil || h.Blocks == nil || h.Parent() != nil || !strings.HasPrefix(funcPkgPath(h), modPath) {
+		return false
+	}
+	isErr := f.Kind == FNil
+	if f.Kind != FNil && f.Kind != FTrue && f.Kind != FFalse {
+		return false
+	}
+	want := f.Kind != FFalse
+	any := false
+	okAll := true
+	consider := func(v ssa.Value, facts []Fact, at *ssa.BasicBlock) {
+		if isErr {
+			switch classifyErrVal(v, at, 0) {
+			case RetError:
+				return
+			case RetSuccess:
+			default:
+				facts = append(append([]Fact{}, facts...), Fact{Kind: FNil, V: canon(v)})
+			}
+		} else if bv, ok := boolConst(canon(v)); ok {
+			if bv != want {
+				return
+			}
+		} else {
+			rf := factOf(v, want)
+			facts = append(append([]Fact{}, facts...), rf)
+			facts = append(facts, expandHelperFact(rf, 1)...)
+		}
+		any = true
+		for _, fa := range facts {
+			if pred(fa) {
+				return
+			}
+		}
+		okAll = false
+	}
+	for _, b := range h.Blocks {
+		if len(b.Instrs) == 0 {
+			continue
+		}
+		r, ok := b.Instrs[len(b.Instrs)-1].(*ssa.Return)
+		if !ok || idx >= len(r.Results) {
+			continue
+		}
+		v := r.Results[idx]
+		if ph, isPhi := v.(*ssa.Phi); isPhi && ph.Block() == b {
+			pp := factsPerPredRaw(b, 1)
+			for i := range b.Preds {
+				consider(ph.Edges[i], pp[i], b.Preds[i])
+			}
+			continue
+		}
+		consider(v, domFactsRaw(b, 1), b)
+	}
+	return any && okAll
 }
 
 // domFactsRaw / factsPerPredRaw: like DomFacts / FactsPerPred, with nested helper expansion bounded by depth.
